@@ -7,7 +7,10 @@ import (
 	"math/big"
 	"sync"
 
+	gfr "github.com/consensys/gnark-crypto/ecc/bls12-381/fr"
 	multiproof "github.com/crate-crypto/go-ipa"
+	"github.com/crate-crypto/go-ipa/bandersnatch"
+	"github.com/crate-crypto/go-ipa/bandersnatch/fp"
 	"github.com/crate-crypto/go-ipa/bandersnatch/fr"
 	"github.com/crate-crypto/go-ipa/banderwagon"
 	"github.com/crate-crypto/go-ipa/common"
@@ -54,11 +57,14 @@ func runNoise(seed uint64, k int, heavy bool) {
 		h := hx.Expand(seed, "noise", i)
 		sel := int(h.Uint64() % 1000)
 		arg := new(big.Int).Rsh(h, 64).Uint64()
-		n := nLightNoise
+		n := nLightNoise + 1
 		if heavy {
 			n += 7
 		}
 		op := sel % n
+		if !heavy && op == nLightNoise {
+			op = 21 // the last light operation sits behind the heavy ones
+		}
 		if op == 3 && arg%6 != 0 { // the large MSM is the only expensive call: keep it rare
 			op = 4
 		}
@@ -197,6 +203,35 @@ func noiseOp(op int, arg uint64) {
 		cfg := Cfg()
 		f := hx.FrSliceFromBig(polySpec{Kind: "dense", Seed: arg}.evals())
 		_ = cfg.PrecomputedWeights.DivideOnDomain(uint8(arg), f)
+	case 21: // whatever a call RETURNS belongs to the caller: returned objects are overwritten / used as receivers
+		var acc banderwagon.Element
+		acc.SetIdentity()
+		if ret, err := acc.MultiExp(nil, nil, banderwagon.MultiExpConfig{NbTasks: int(arg % 3)}); err == nil && ret != nil {
+			ret.Add(ret, &banderwagon.Generator)
+			ret.Double(ret)
+		}
+		if p, err := common.ReadPoint(bytes.NewReader(make([]byte, 32))); err == nil && p != nil {
+			p.Add(p, &banderwagon.Generator)
+		}
+		if sc, err := common.ReadScalar(bytes.NewReader(ref.LE32(big.NewInt(int64(arg % 5))))); err == nil && sc != nil {
+			sc.SetUint64(77)
+		}
+		var zero gfr.Element
+		if root := fp.SqrtPrecomp(&zero); root != nil {
+			root.SetUint64(5)
+		}
+		if pt := bandersnatch.GetPointFromX(&zero, arg%2 == 0); pt != nil {
+			pt.X.SetUint64(9)
+			pt.Y.SetUint64(9)
+		}
+		var t1, t2 banderwagon.Element
+		t1.SetIdentity()
+		s := hx.FrFromBig(big.NewInt(int64(arg%7) + 2))
+		if ret := t2.ScalarMul(&t1, &s); ret != nil {
+			ret.Add(ret, &banderwagon.Generator)
+		}
+		ms, _ := ipa.MultiScalar(nil, nil)
+		ms.Add(&ms, &banderwagon.Generator)
 	case 20: // generic MSM over a sub-slice of the shared SRS
 		cfg := Cfg()
 		k := 1 + int(arg%200)
